@@ -1,0 +1,15 @@
+//go:build verif
+
+package nfdc
+
+func (m *NfdMgmtThread) VerifDrain() []NfdMgmtCmd {
+	var out []NfdMgmtCmd
+	for {
+		select {
+		case c := <-m.channel:
+			out = append(out, c)
+		default:
+			return out
+		}
+	}
+}
